@@ -18,6 +18,9 @@ from ..effects import Effects, _mutable_ctor
 from ..dataflow import Flow, chain, call_name
 from ..bits import provenance
 from ..poly import Poly, le, lt, eq
+from ..terms import Terms, reify, plain, match, V, ANY, show, subterms, \
+    alternatives, one_level, chunked, chunk_index, concat_parts, mk_cmp, \
+    is_none, method_calls
 from ..util import calls_in, qual, returns_of, bind
 
 MOD = "rig.machine_control.boot"
@@ -81,29 +84,64 @@ def r1_effects(program, rep):
                                       a.defaults) if _mutable_ctor(d)]
     rep.note("mutable defaults of boot(): %s" % muts)
     # the options reach the struct: update_default_values(**X) where X holds
-    # both the explicit overrides and the keyword options
-    fl = Flow(boot)
+    # both the explicit overrides and the keyword options, on every path
+    T = Terms(boot)
+    kwp = ("param", boot.args.kwarg.arg) if boot.args.kwarg else None
+    ovp = ("param", "sv_overrides")
     upd = calls_in(boot, "update_default_values")
     got = False
+    why = "no update_default_values(**options) call"
     for c in upd:
         for k in c.keywords:
-            if k.arg is None:
-                v = chain(k.value)
-                node = fl.cfg.node_containing(c)
-                defs = fl.reaching(v, node) if v else []
-                # X = dict(sv_overrides) ... X.update(kwargs)
-                srcs = set()
-                for d in fl.defs:
-                    if d.var == v and d.node.ast is not None:
-                        for sub in ast.walk(d.node.ast):
-                            if isinstance(sub, ast.Name):
-                                srcs.add(sub.id)
-                kw = boot.args.kwarg.arg if boot.args.kwarg else None
-                if kw in srcs and "sv_overrides" in srcs:
-                    got = True
+            if k.arg is not None:
+                continue
+            node = T.cfg.node_containing(c)
+            X = T.term(k.value, node)
+            got = True
+            if X[0] == "mu":
+                cands = [(T._bind_term(T.binds[i]), T.binds[i].node)
+                         for i in X[1].ids]
+            else:
+                cands = [(X, node)]
+            for alt, at in cands:
+                pa = plain(alt)
+                has_kw = alt == kwp
+                has_ov = False
+                if pa[0] == "call" and pa[1] == ("global", "dict"):
+                    has_ov = ovp in pa[2]
+                    has_kw = ("**", kwp) in pa[3] or kwp in pa[2]
+                    for n_, c2, recv, args in method_calls(T, "update"):
+                        if recv == alt and T.cfg.dominates(n_, node):
+                            has_kw = has_kw or kwp in args
+                            has_ov = has_ov or ovp in args
+                if not has_ov and (is_none(ovp), True) in T.all_facts(at):
+                    has_ov = True        # nothing to apply on this path
+                if not (has_kw and has_ov):
+                    got = False
+                    why = "on some path the options are %s, which leaves " \
+                        "out %s" % (show(alt)[:60], "the keyword options"
+                                    if not has_kw else "sv_overrides")
     rep.check(got, "C20-R1", qual(boot), "both sv_overrides and the keyword "
-              "options are applied to the system-variable defaults",
-              construct="options applied", node=boot)
+              "options are applied to the system-variable defaults on every "
+              "path", construct="options applied", node=boot,
+              fail="boot() does not apply both option sources to the "
+                   "system-variable defaults: %s" % why)
+    # every override is stored as given
+    ud = program.get(SF + ":Struct.update_default_values")
+    U = Terms(ud)
+    E = ("elem", ("items", ("param", ud.args.kwarg.arg)))
+    okv = False
+    for c in calls_in(ud, "_replace"):
+        for k in c.keywords:
+            if k.arg == "default":
+                okv = U.term(k.value, U.cfg.node_containing(c)) == (
+                    "comp", E, 1)
+    rep.check(okv, "C20-R1", qual(ud), "the new default of a field is the "
+              "value given for it, whatever that value is (0 included)",
+              construct="override value", node=ud,
+              fail="update_default_values does not store the caller's value "
+                   "itself as the field's default (e.g. 'value or old' "
+                   "drops an override of 0)")
     rep.floor("C20-R1", 10)
 
 
@@ -168,59 +206,37 @@ def r2_sequence(program, folder, rep):
                 "carries no block count", c_start)
         return
     cnt = fl.sym(arg3, n_start) + 1          # announced = arg3 + 1
-    # the image that is cut into blocks: the loop slices X[:K], X[K:]
-    sl = [n for n in ast.walk(loop) if isinstance(n, ast.Subscript) and
-          isinstance(n.slice, ast.Slice)]
-    src = set(chain(s.value) for s in sl)
-    ks = set()
-    shapes = set()
-    for s_ in sl:
-        lo = const(s_.slice.lower) if s_.slice.lower is not None else None
-        hi = const(s_.slice.upper) if s_.slice.upper is not None else None
-        shapes.add((lo is not None, hi is not None))
-        ks.add(lo if lo is not None else hi)
-    ok = len(src) == 1 and ks == {B} and shapes == {(False, True),
-                                                    (True, False)}
-    rep.check(ok, "C20-R2", inst, "each iteration sends image[:%d] and keeps "
-              "image[%d:] (same constant as the announced count uses)" % (
-                  B, B), construct="block slicing %s %s" % (sorted(
-                      str(k) for k in ks), sorted(shapes)), node=loop)
-    img = list(src)[0] if len(src) == 1 else None
-    # loop runs while data remains
-    head_ok = False
-    if isinstance(loop, ast.While):
-        t = unparse(loop.test)
-        head_ok = t in ("len(%s) > 0" % img, "%s" % img,
-                        "len(%s) != 0" % img, "len(%s)" % img,
-                        "0 < len(%s)" % img)
-    rep.check(head_ok, "C20-R2", inst, "the loop continues while image bytes "
-              "remain", construct="block loop condition", node=loop)
-    # the sent data is the head slice, the kept data the tail
+    # the blocks sent are the consecutive BOOT_BYTE_SIZE pieces of the
+    # image, which is bytes(<the buffer that was spliced>)
+    T = Terms(fn)
+
+    def tconst(t):
+        v = const(reify(plain(t)))
+        return v if isinstance(v, int) and not isinstance(v, bool) else None
+    tn = T.cfg.node_containing(c_blk)
     d_blk = b_blk.get("data")
-    dn = chain(d_blk) if d_blk is not None else None
-    head_tail = False
-    for n in ast.walk(loop):
-        if isinstance(n, ast.Assign) and isinstance(n.targets[0], ast.Tuple) \
-                and isinstance(n.value, ast.Tuple) and \
-                len(n.value.elts) == 2:
-            t0, t1 = [chain(t) for t in n.targets[0].elts]
-            v0, v1 = n.value.elts
-            if t0 == dn and t1 == img and isinstance(v0, ast.Subscript) and \
-                    isinstance(v1, ast.Subscript) and \
-                    v0.slice.lower is None and v1.slice.upper is None:
-                head_tail = True
-    rep.check(head_tail, "C20-R2", inst, "the block sent is the head slice "
-              "and the remainder replaces the image variable",
-              construct="head/tail split", node=loop)
-    # which buffer: the image variable at the loop is bytes(<spliced buffer>)
-    pre = cfg.node_of(loop) if id(loop) in cfg.stmt_node else None
-    img_defs = fl.reaching(img, cfg.loop_head[id(loop)]) if img else []
-    outer = [d for d in img_defs if not _inside(d.node.ast, loop)]
+    piece = T.term(d_blk, tn) if d_blk is not None else ("?",)
+    IMG = None
+    if piece[0] == "item":
+        for cand in one_level(piece[1]) + [piece[1]]:
+            pc = plain(cand)
+            if pc[0] == "call" and pc[1] == ("global", "bytes") and \
+                    len(pc[2]) == 1:
+                IMG = cand
+    ok = IMG is not None and chunked(piece, IMG, B, tconst)
+    rep.check(ok, "C20-R2", inst, "the blocks sent are the consecutive "
+              "%d-byte pieces of the image, in order (same constant as the "
+              "announced count uses)" % B, construct="block slicing",
+              node=loop,
+              fail="the data of the send_block datagrams is not the image "
+                   "cut into consecutive %d-byte pieces" % B)
     buf = None
-    if len(outer) == 1 and outer[0].mode == "assign" and \
-            isinstance(outer[0].value, ast.Call) and \
-            call_name(outer[0].value)[0] == "bytes" and outer[0].value.args:
-        buf = chain(outer[0].value.args[0])
+    if IMG is not None:
+        BUF = IMG[2][0] if IMG[0] != "new" else IMG[2][2][0]
+        names = [b_.var for b_ in T.binds if b_.mode == "assign" and
+                 b_.value is not None and
+                 T._bind_term(b_) == BUF and "." not in b_.var]
+        buf = names[0] if names else None
     rep.check(buf is not None, "C20-R2", inst, "the bytes cut into blocks "
               "are bytes(<the buffer that was spliced>)",
               construct="image source", node=loop)
@@ -237,14 +253,9 @@ def r2_sequence(program, folder, rep):
                        "multiples)" % (cnt, B))
     # numbering
     a1 = b_blk.get("arg1")
-    blockvar = None
     if a1 is not None:
-        a1e = a1
-        if chain(a1) is not None:
-            ds = fl.reaching(chain(a1), n_blk)
-            if len(ds) == 1 and ds[0].mode == "assign":
-                a1e = ds[0].value
-        lay = provenance(a1e, lambda e: (const(e) if isinstance(
+        a1t = T.term(a1, tn)
+        lay = provenance(reify(plain(a1t)), lambda e: (const(e) if isinstance(
             const(e), int) and not isinstance(const(e), bool) else None))
         low = [p for p in lay.pieces if p.dst_lo == 0 and p.src_lo == 0]
         W = const(ast.parse("BOOT_WORD_SIZE", mode="eval").body)
@@ -253,22 +264,29 @@ def r2_sequence(program, folder, rep):
         rep.check(okl, "C20-R2", inst, "arg1 = (words per block - 1) << 8 | "
                   "block number", construct="block arg1 %r" % (lay,),
                   node=c_blk)
-        if low:
-            blockvar = low[0].src
-    if blockvar:
-        defs = [d for d in fl.defs if d.var == blockvar]
-        init = [d for d in defs if d.mode == "assign" and
-                not _inside(d.node.ast, loop)]
-        incs = [d for d in defs if _inside(d.node.ast, loop)]
-        ok = len(init) == 1 and const(init[0].value) == 0 and \
-            len(incs) == 1 and incs[0].mode == "aug" and \
-            isinstance(incs[0].value.op, ast.Add) and \
-            const(incs[0].value.value) == 1 and \
-            cfg.reaches(n_blk, incs[0].node) and \
-            cfg.must_pass(n_blk, lambda n: n is incs[0].node,
-                          targets=[cfg.loop_head[id(loop)]])
-        rep.check(ok, "C20-R2", inst, "blocks are numbered from 0, "
-                  "increasing by one after each block sent",
+        # the block number: the low-bits operand of the or
+        num = None
+        for st_ in subterms(a1t):
+            if low and unparse(reify(plain(st_))) == low[0].src:
+                num = st_
+        okn = False
+        if num is not None and num[0] == "index":
+            # the running index of the pieces themselves
+            okn = chunk_index(plain(num), B, tconst) is not None and \
+                piece[0] == "item" and piece[2][1] == ("elem", num[1])
+        elif num is not None and num[0] == "mu":
+            alts = one_level(num)
+            okn = ("const", 0) in alts and len(alts) == 2 and any(
+                x in (("binop", "Add", num, ("const", 1)),
+                      ("binop", "Add", ("const", 1), num)) for x in alts)
+            if okn:
+                inc = [T.binds[i] for i in num[1].ids
+                       if T._bind_term(T.binds[i]) != ("const", 0)][0]
+                okn = _inside(inc.node.ast, loop) and \
+                    cfg.must_pass(n_blk, lambda n: n is cfg.nodes[
+                        inc.node.id], targets=[cfg.loop_head[id(loop)]])
+        rep.check(okn, "C20-R2", inst, "blocks are numbered from 0, "
+                  "increasing by one for each block sent",
                   construct="block numbering", node=loop)
     # the count bound: assert n_blocks <= BOOT_MAX_BLOCKS (<= 256) before
     MAXB = const(ast.parse("BOOT_MAX_BLOCKS", mode="eval").body)
@@ -381,51 +399,56 @@ def r4_packet(program, folder, rep):
     fn = program.get(MOD + ":boot_packet")
     inst = qual(fn)
     env = folder.module_env(MOD)
+    T = Terms(fn)
 
-    def const(e):
+    def const(t):
         try:
-            return folder.eval(e, env, fn._module)
-        except AnalysisError:
+            v = folder.eval(reify(plain(t)), env, fn._module)
+        except Exception:
             return None
-    packs = [c for c in calls_in(fn, "pack")
-             if chain(call_name(c)[1]) == "struct"]
-    unpacks = [c for c in calls_in(fn, "unpack")
-               if chain(call_name(c)[1]) == "struct"]
+        return v
     ps = [a.arg for a in fn.args.args]
-    hdr = [c for c in packs if const(c.args[0]) == "!H4I"]
-    ok = len(hdr) == 1 and len(hdr[0].args) == 6 and \
-        [chain(a) for a in hdr[0].args[2:]] == ps[1:5]
-    ver = None
-    if ok:
-        fl = Flow(fn)
-        ver = fl.sym(hdr[0].args[1], fl.cfg.node_containing(hdr[0]))
-    rep.check(ok and ver == Poly.const(1), "C20-R4", inst,
+    sends = [c for c in calls_in(fn, "send") if len(c.args) == 1]
+    if len(sends) != 1:
+        raise AnalysisError("boot_packet: one send expected")
+    sn = T.cfg.node_containing(sends[0])
+    sent = T.term(sends[0].args[0], sn)
+    oks = sent[0] == "binop" and sent[1] == "Add"
+    rep.check(oks, "C20-R4", inst, "one datagram = header + swapped payload",
+              construct="boot datagram", node=fn)
+    if not oks:
+        return
+    hdr, body = plain(sent[2]), sent[3]
+    PACK = ("attr", ("global", "struct"), "pack")
+    okh = hdr[0] == "call" and hdr[1] == PACK and len(hdr[2]) == 6 and \
+        const(hdr[2][0]) == "!H4I" and const(hdr[2][1]) == 1 and \
+        list(hdr[2][2:]) == [("param", p_) for p_ in ps[1:5]]
+    rep.check(okh, "C20-R4", inst,
               "header = pack('!H4I', 1, cmd, arg1, arg2, arg3)",
               construct="boot header", node=fn)
-    word = [c for c in packs if const(c.args[0]) == "!I"]
-    okw = False
-    if len(word) == 1 and len(unpacks) == 1:
-        a = word[0].args[1]
-        okw = (isinstance(a, ast.Subscript) and a.value is unpacks[0] and
-               const(a.slice) == 0 and const(unpacks[0].args[0]) == "<I")
+    elem = concat_parts(T, body)
+    okw = okc = False
+    if elem is not None:
+        pe = plain(elem)
+        m = match(("call", PACK, (V("f"), ("comp", ("call", (
+            "attr", ("global", "struct"), "unpack"), (V("g"), V("w")), ()),
+            0)), ()), pe)
+        if m is not None:
+            okw = const(m["f"]) == "!I" and const(m["g"]) == "<I"
+            # the word: find it un-plained inside the element
+            WORD = None
+            for st_ in subterms(elem):
+                if plain(st_) == m["w"]:
+                    WORD = st_
+            data = ("param", ps[5]) if len(ps) > 5 else None
+            okc = WORD is not None and data is not None and \
+                chunked(WORD, data, 4, const)
     rep.check(okw, "C20-R4", inst, "each word is unpacked little-endian "
               "('<I') and re-packed big-endian ('!I')",
               construct="byte swap", node=fn)
-    # words are taken 4 bytes at a time, in order
-    sl = [n for n in ast.walk(fn) if isinstance(n, ast.Subscript) and
-          isinstance(n.slice, ast.Slice)]
-    ks = set()
-    for s_ in sl:
-        ks.add(const(s_.slice.lower) if s_.slice.lower is not None
-               else const(s_.slice.upper))
-    rep.check(ks == {4} and len(sl) == 2, "C20-R4", inst,
-              "the payload is consumed as data[:4], data[4:]",
-              construct="word slicing %s" % sorted(map(str, ks)), node=fn)
-    sends = calls_in(fn, "send")
-    oks = len(sends) == 1 and isinstance(sends[0].args[0], ast.BinOp) and \
-        isinstance(sends[0].args[0].op, ast.Add)
-    rep.check(oks, "C20-R4", inst, "one datagram = header + swapped payload",
-              construct="boot datagram", node=fn)
+    rep.check(okc, "C20-R4", inst, "the payload is consumed four bytes at a "
+              "time, in order, and the swapped words are concatenated in "
+              "that order", construct="word slicing", node=fn)
     rep.floor("C20-R4", 4)
 
 
